@@ -909,8 +909,24 @@ class NP:
 
     def m_astype(self, interp, line, t, dtype):
         kind = dtype_kind(dtype)
+        width = dtype_width(dtype)
+        if kind == 'real' and width is not None and width < 64:
+            raise Unsupported(f'astype({width}-bit float): reduced precision is not modelled', line)
         if kind == 'int':
             interp.ctx.use('ndarray.astype(int): truncation toward zero')
+            if width is not None and width < 64:
+                # a narrow integer type wraps modulo 2^width (two's complement for the signed ones)
+                interp.ctx.use(f'ndarray.astype({width}-bit integer): truncation toward zero, then wrap-around modulo 2^{width}')
+                unsigned = dtype_unsigned(dtype)
+                mod = 2 ** width
+
+                def narrow(x):
+                    x = pyval(x)
+                    v = V.to_int(x) if (V.is_int_like(x) or V.is_bool_like(x)) and is_sym(x) else (int(x) if not is_sym(x) else z3.If(x >= 0, z3.ToInt(x), -z3.ToInt(-x)))
+                    if unsigned:
+                        return binop('%', v, mod)
+                    return binop('-', binop('%', binop('+', v, mod // 2), mod), mod // 2)
+                return t.map(narrow, dtype='int')
 
             def trunc(x):
                 x = pyval(x)
@@ -1160,6 +1176,22 @@ class NP:
 class _BuiltinLike:
     def __init__(self, kind):
         self.kind = kind
+
+
+def _dtype_name(dtype):
+    name = getattr(dtype, 'name', None) or getattr(dtype, 'dotted', None) or (dtype if isinstance(dtype, str) else getattr(dtype, '__name__', ''))
+    return str(name).split('.')[-1]
+
+
+def dtype_width(dtype):
+    """bit width named by a numpy dtype (np.uint8 -> 8, np.float32 -> 32); None for the platform types int / float / np.int_."""
+    import re as _re
+    m = _re.search(r'(\d+)$', _dtype_name(dtype))
+    return int(m.group(1)) if m else None
+
+
+def dtype_unsigned(dtype):
+    return _dtype_name(dtype).startswith('uint')
 
 
 def dtype_kind(dtype):
